@@ -12,6 +12,7 @@ import (
 	"os"
 	"runtime/debug"
 	"strings"
+	"sync"
 )
 
 type Case struct {
@@ -221,21 +222,32 @@ func toI64(x any) int64 {
 	return 0
 }
 
-func CopyBound(k int)            {}
-func ConcBound(k int)            {}
-func CrcBound(k int)             {}
-func Unwind(k int)               {}
-func MaxPaths(k int)             {}
-func Tier() string               { return tier }
-func Thorough() bool             { return tier == "thorough" }
-func Symbolic() bool             { return false }
-func Concrete(x int) int         { return x }
-func And(a, b bool) bool         { return a && b }
-func Or(a, b bool) bool          { return a || b }
-func Implies(a, b bool) bool     { return !a || b }
-func BytesEq(a, b []byte) bool   { return string(a) == string(b) }
-func Yield()                     {}
-func Ite[T any](c bool, a, b T) T { if c { return a }; return b }
+func CopyBound(k int)          {}
+func ConcBound(k int)          {}
+func CrcBound(k int)           {}
+func Unwind(k int)             {}
+func MaxPaths(k int)           {}
+func Tier() string             { return tier }
+func Thorough() bool           { return tier == "thorough" }
+func Symbolic() bool           { return false }
+func Concrete(x int) int       { return x }
+func And(a, b bool) bool       { return a && b }
+func Or(a, b bool) bool        { return a || b }
+func Implies(a, b bool) bool   { return !a || b }
+func BytesEq(a, b []byte) bool { return string(a) == string(b) }
+func Yield()                   {}
+
+var atomicMu sync.Mutex
+
+// Atomic runs f as one indivisible step of a concurrent harness (engine: one scheduling point,
+// no preemption inside; natively: under a global lock).
+func Atomic(f func()) { atomicMu.Lock(); defer atomicMu.Unlock(); f() }
+func Ite[T any](c bool, a, b T) T {
+	if c {
+		return a
+	}
+	return b
+}
 
 // runOne executes one harness and classifies the outcome.
 func runOne(f func()) (outcome string) {
@@ -281,8 +293,22 @@ func ReplayMain(harnesses map[string]func()) {
 			fmt.Printf("VERIF-REPLAY case=%d harness=%s outcome=unknown-harness\n", i, c.Harness)
 			continue
 		}
-		cur, counts, observes, reached = c, map[string]int{}, nil, nil
-		out := runOne(f)
+		runs := 1
+		if strings.Contains(c.Harness, "_Conc") && c.Kind == "violation" {
+			// a concurrent harness: the native scheduler picks the interleaving, so stress it
+			fmt.Sscanf(os.Getenv("VERIF_REPLAY_CONC_RUNS"), "%d", &runs)
+			if runs < 1 {
+				runs = 1
+			}
+		}
+		out := ""
+		for r := 0; r < runs; r++ {
+			cur, counts, observes, reached = c, map[string]int{}, nil, nil
+			out = runOne(f)
+			if out != "completed" {
+				break
+			}
+		}
 		fmt.Printf("VERIF-REPLAY case=%d harness=%s outcome=%s reached=%s observes=%s\n", i, c.Harness, out,
 			strings.Join(reached, ";"), strings.Join(observes, ";"))
 	}
